@@ -13,6 +13,18 @@ type verifField struct {
 	name  string
 	set   func(t *pb.Transaction, b []byte)
 	signs bool // part of the id only (signature material), not of the signing digest
+	str   bool // a string in the schema (the json stream of versions 1 and 2 escapes some bytes)
+}
+
+// verifBytes: n arbitrary bytes; letters only where the json stream would have to escape.
+func verifBytes(name string, n int, letters bool) []byte {
+	b := vrt.Bytes(name, n)
+	if letters {
+		for _, c := range b {
+			vrt.Assume(c >= 'a' && c <= 'z')
+		}
+	}
+	return b
 }
 
 func verifSkeleton(version int32) *pb.Transaction {
@@ -35,34 +47,34 @@ var verifArgKey = "k"
 
 func verifFields() []verifField {
 	return []verifField{
-		{"in.RefTxid", func(t *pb.Transaction, b []byte) { t.TxInputs[0].RefTxid = b }, false},
-		{"in.FromAddr", func(t *pb.Transaction, b []byte) { t.TxInputs[0].FromAddr = b }, false},
-		{"in.Amount", func(t *pb.Transaction, b []byte) { t.TxInputs[0].Amount = b }, false},
-		{"out.Amount", func(t *pb.Transaction, b []byte) { t.TxOutputs[0].Amount = b }, false},
-		{"out.ToAddr", func(t *pb.Transaction, b []byte) { t.TxOutputs[0].ToAddr = b }, false},
-		{"Desc", func(t *pb.Transaction, b []byte) { t.Desc = b }, false},
-		{"Nonce", func(t *pb.Transaction, b []byte) { t.Nonce = string(b) }, false},
-		{"iext.Bucket", func(t *pb.Transaction, b []byte) { t.TxInputsExt[0].Bucket = string(b) }, false},
-		{"iext.Key", func(t *pb.Transaction, b []byte) { t.TxInputsExt[0].Key = b }, false},
-		{"iext.RefTxid", func(t *pb.Transaction, b []byte) { t.TxInputsExt[0].RefTxid = b }, false},
-		{"oext.Bucket", func(t *pb.Transaction, b []byte) { t.TxOutputsExt[0].Bucket = string(b) }, false},
-		{"oext.Key", func(t *pb.Transaction, b []byte) { t.TxOutputsExt[0].Key = b }, false},
-		{"oext.Value", func(t *pb.Transaction, b []byte) { t.TxOutputsExt[0].Value = b }, false},
-		{"req.Module", func(t *pb.Transaction, b []byte) { t.ContractRequests[0].ModuleName = string(b) }, false},
-		{"req.Contract", func(t *pb.Transaction, b []byte) { t.ContractRequests[0].ContractName = string(b) }, false},
-		{"req.Method", func(t *pb.Transaction, b []byte) { t.ContractRequests[0].MethodName = string(b) }, false},
-		{"req.ArgValue", func(t *pb.Transaction, b []byte) { t.ContractRequests[0].Args[verifArgKey] = b }, false},
-		{"req.Amount", func(t *pb.Transaction, b []byte) { t.ContractRequests[0].Amount = string(b) }, false},
-		{"Initiator", func(t *pb.Transaction, b []byte) { t.Initiator = string(b) }, false},
-		{"AuthRequire", func(t *pb.Transaction, b []byte) { t.AuthRequire[0] = string(b) }, false},
-		{"isign.PublicKey", func(t *pb.Transaction, b []byte) { t.InitiatorSigns[0].PublicKey = string(b) }, true},
-		{"isign.Sign", func(t *pb.Transaction, b []byte) { t.InitiatorSigns[0].Sign = b }, true},
-		{"asign.PublicKey", func(t *pb.Transaction, b []byte) { t.AuthRequireSigns[0].PublicKey = string(b) }, true},
-		{"asign.Sign", func(t *pb.Transaction, b []byte) { t.AuthRequireSigns[0].Sign = b }, true},
-		{"xsign.PublicKey", func(t *pb.Transaction, b []byte) { t.XuperSign.PublicKeys[0] = b }, true},
-		{"xsign.Signature", func(t *pb.Transaction, b []byte) { t.XuperSign.Signature = b }, true},
-		{"hd.HdPublicKey", func(t *pb.Transaction, b []byte) { t.HDInfo.HdPublicKey = b }, false},
-		{"hd.OriginalHash", func(t *pb.Transaction, b []byte) { t.HDInfo.OriginalHash = b }, false},
+		{"in.RefTxid", func(t *pb.Transaction, b []byte) { t.TxInputs[0].RefTxid = b }, false, false},
+		{"in.FromAddr", func(t *pb.Transaction, b []byte) { t.TxInputs[0].FromAddr = b }, false, false},
+		{"in.Amount", func(t *pb.Transaction, b []byte) { t.TxInputs[0].Amount = b }, false, false},
+		{"out.Amount", func(t *pb.Transaction, b []byte) { t.TxOutputs[0].Amount = b }, false, false},
+		{"out.ToAddr", func(t *pb.Transaction, b []byte) { t.TxOutputs[0].ToAddr = b }, false, false},
+		{"Desc", func(t *pb.Transaction, b []byte) { t.Desc = b }, false, false},
+		{"Nonce", func(t *pb.Transaction, b []byte) { t.Nonce = string(b) }, false, true},
+		{"iext.Bucket", func(t *pb.Transaction, b []byte) { t.TxInputsExt[0].Bucket = string(b) }, false, true},
+		{"iext.Key", func(t *pb.Transaction, b []byte) { t.TxInputsExt[0].Key = b }, false, false},
+		{"iext.RefTxid", func(t *pb.Transaction, b []byte) { t.TxInputsExt[0].RefTxid = b }, false, false},
+		{"oext.Bucket", func(t *pb.Transaction, b []byte) { t.TxOutputsExt[0].Bucket = string(b) }, false, true},
+		{"oext.Key", func(t *pb.Transaction, b []byte) { t.TxOutputsExt[0].Key = b }, false, false},
+		{"oext.Value", func(t *pb.Transaction, b []byte) { t.TxOutputsExt[0].Value = b }, false, false},
+		{"req.Module", func(t *pb.Transaction, b []byte) { t.ContractRequests[0].ModuleName = string(b) }, false, true},
+		{"req.Contract", func(t *pb.Transaction, b []byte) { t.ContractRequests[0].ContractName = string(b) }, false, true},
+		{"req.Method", func(t *pb.Transaction, b []byte) { t.ContractRequests[0].MethodName = string(b) }, false, true},
+		{"req.ArgValue", func(t *pb.Transaction, b []byte) { t.ContractRequests[0].Args[verifArgKey] = b }, false, false},
+		{"req.Amount", func(t *pb.Transaction, b []byte) { t.ContractRequests[0].Amount = string(b) }, false, true},
+		{"Initiator", func(t *pb.Transaction, b []byte) { t.Initiator = string(b) }, false, true},
+		{"AuthRequire", func(t *pb.Transaction, b []byte) { t.AuthRequire[0] = string(b) }, false, true},
+		{"isign.PublicKey", func(t *pb.Transaction, b []byte) { t.InitiatorSigns[0].PublicKey = string(b) }, true, true},
+		{"isign.Sign", func(t *pb.Transaction, b []byte) { t.InitiatorSigns[0].Sign = b }, true, false},
+		{"asign.PublicKey", func(t *pb.Transaction, b []byte) { t.AuthRequireSigns[0].PublicKey = string(b) }, true, true},
+		{"asign.Sign", func(t *pb.Transaction, b []byte) { t.AuthRequireSigns[0].Sign = b }, true, false},
+		{"xsign.PublicKey", func(t *pb.Transaction, b []byte) { t.XuperSign.PublicKeys[0] = b }, true, false},
+		{"xsign.Signature", func(t *pb.Transaction, b []byte) { t.XuperSign.Signature = b }, true, false},
+		{"hd.HdPublicKey", func(t *pb.Transaction, b []byte) { t.HDInfo.HdPublicKey = b }, false, false},
+		{"hd.OriginalHash", func(t *pb.Transaction, b []byte) { t.HDInfo.OriginalHash = b }, false, false},
 	}
 }
 
@@ -81,15 +93,15 @@ func verifC07Adjacent(version int32, includeSigns bool, maxLen int) {
 	}
 	common := make([][]byte, len(fs))
 	for i := range fs {
-		common[i] = vrt.Bytes("c."+fs[i].name, 1)
+		common[i] = verifBytes("c."+fs[i].name, 1, version < 3 && fs[i].str)
 	}
 	build := func(tag string) (*pb.Transaction, []byte, []byte) {
 		t := verifSkeleton(version)
 		for i, f := range fs {
 			f.set(t, common[i])
 		}
-		a := vrt.Bytes(tag+"1", vrt.Choice("len1", maxLen+1))
-		b := vrt.Bytes(tag+"2", vrt.Choice("len2", maxLen+1))
+		a := verifBytes(tag+"1", vrt.Choice("len1", maxLen+1), version < 3 && f1.str)
+		b := verifBytes(tag+"2", vrt.Choice("len2", maxLen+1), version < 3 && f2.str)
 		f1.set(t, a)
 		f2.set(t, b)
 		return t, a, b
@@ -107,9 +119,14 @@ func verifC07Adjacent(version int32, includeSigns bool, maxLen int) {
 	eq := verifSame(dt, du)
 	vrt.Cover("digests-equal", eq)
 	vrt.Cover("digests-differ", !eq)
-	vrt.Known("json-digest-skips-empty-fields", version < 3)
+	// known-finding class: the json stream of versions 1 and 2 omits these byte fields when empty and
+	// nothing separates them from their neighbour, so a value can move from one into the other
+	skipPair := version < 3 && (f1.name == "in.FromAddr" && f2.name == "in.Amount" ||
+		f1.name == "iext.Key" && f2.name == "iext.RefTxid" || f1.name == "oext.Key" && f2.name == "oext.Value")
+	moved := len(a1) == 0 && len(b2) == 0 || len(a2) == 0 && len(b1) == 0
+	vrt.Known("json-stream-omits-empty-neighbouring-fields", skipPair && moved)
 	vrt.Assert(!eq || verifSame(a1, b1), "equal-digests-imply-equal-first-field")
-	vrt.Known("json-digest-skips-empty-fields", version < 3)
+	vrt.Known("json-stream-omits-empty-neighbouring-fields", skipPair && moved)
 	vrt.Assert(!eq || verifSame(a2, b2), "equal-digests-imply-equal-second-field")
 }
 
@@ -117,54 +134,58 @@ func verifC07Adjacent(version int32, includeSigns bool, maxLen int) {
 func verifC07Scalars(version int32, includeSigns bool) {
 	t := verifSkeleton(version)
 	u := verifSkeleton(version)
+	hi := int64(70000) // fixed-width binary in version 3
+	if version < 3 {
+		hi = 99 // decimal text in the json stream: one or two digits
+	}
 	for i, f := range verifFields() {
-		c := vrt.Bytes("c."+string([]byte{byte('a' + i)}), 1)
+		c := verifBytes("c."+string([]byte{byte('a' + i)}), 1, version < 3 && f.str)
 		f.set(t, c)
 		f.set(u, c)
 	}
 	differ := true
 	switch vrt.Choice("field", 16) {
 	case 0:
-		t.TxInputs[0].RefOffset, u.TxInputs[0].RefOffset = int32(vrt.Int("x", 0, 70000)), int32(vrt.Int("y", 0, 70000))
+		t.TxInputs[0].RefOffset, u.TxInputs[0].RefOffset = int32(vrt.Int("x", 0, hi)), int32(vrt.Int("y", 0, hi))
 		differ = t.TxInputs[0].RefOffset != u.TxInputs[0].RefOffset
 	case 1:
-		t.TxInputs[0].FrozenHeight, u.TxInputs[0].FrozenHeight = vrt.Int("x", 0, 70000), vrt.Int("y", 0, 70000)
+		t.TxInputs[0].FrozenHeight, u.TxInputs[0].FrozenHeight = vrt.Int("x", 0, hi), vrt.Int("y", 0, hi)
 		differ = t.TxInputs[0].FrozenHeight != u.TxInputs[0].FrozenHeight
 	case 2:
-		t.TxOutputs[0].FrozenHeight, u.TxOutputs[0].FrozenHeight = vrt.Int("x", 0, 70000), vrt.Int("y", 0, 70000)
+		t.TxOutputs[0].FrozenHeight, u.TxOutputs[0].FrozenHeight = vrt.Int("x", 0, hi), vrt.Int("y", 0, hi)
 		differ = t.TxOutputs[0].FrozenHeight != u.TxOutputs[0].FrozenHeight
 	case 3:
 		t.Coinbase, u.Coinbase = vrt.Bool("x"), vrt.Bool("y")
 		differ = t.Coinbase != u.Coinbase
 	case 4:
-		t.Timestamp, u.Timestamp = vrt.Int("x", 0, 70000), vrt.Int("y", 0, 70000)
+		t.Timestamp, u.Timestamp = vrt.Int("x", 0, hi), vrt.Int("y", 0, hi)
 		differ = t.Timestamp != u.Timestamp
 	case 5:
 		t.Autogen, u.Autogen = vrt.Bool("x"), vrt.Bool("y")
 		differ = t.Autogen != u.Autogen
 	case 6:
-		t.TxInputsExt[0].RefOffset, u.TxInputsExt[0].RefOffset = int32(vrt.Int("x", 0, 70000)), int32(vrt.Int("y", 0, 70000))
+		t.TxInputsExt[0].RefOffset, u.TxInputsExt[0].RefOffset = int32(vrt.Int("x", 0, hi)), int32(vrt.Int("y", 0, hi))
 		differ = t.TxInputsExt[0].RefOffset != u.TxInputsExt[0].RefOffset
 	case 7:
-		t.ContractRequests[0].ResourceLimits[0].Limit, u.ContractRequests[0].ResourceLimits[0].Limit = vrt.Int("x", 0, 70000), vrt.Int("y", 0, 70000)
+		t.ContractRequests[0].ResourceLimits[0].Limit, u.ContractRequests[0].ResourceLimits[0].Limit = vrt.Int("x", 0, hi), vrt.Int("y", 0, hi)
 		differ = t.ContractRequests[0].ResourceLimits[0].Limit != u.ContractRequests[0].ResourceLimits[0].Limit
 	case 8:
 		t.ContractRequests[0].ResourceLimits[0].Type, u.ContractRequests[0].ResourceLimits[0].Type = protos.ResourceType(vrt.Int("x", 0, 3)), protos.ResourceType(vrt.Int("y", 0, 3))
 		differ = t.ContractRequests[0].ResourceLimits[0].Type != u.ContractRequests[0].ResourceLimits[0].Type
 	case 9: // one more input
-		u.TxInputs = append(u.TxInputs, &protos.TxInput{RefTxid: vrt.Bytes("extra", 1)})
+		u.TxInputs = append(u.TxInputs, &protos.TxInput{RefTxid: verifBytes("extra", 1, version < 3)})
 	case 10: // one more output
-		u.TxOutputs = append(u.TxOutputs, &protos.TxOutput{Amount: vrt.Bytes("extra", 1)})
+		u.TxOutputs = append(u.TxOutputs, &protos.TxOutput{Amount: verifBytes("extra", 1, version < 3)})
 	case 11:
-		u.TxInputsExt = append(u.TxInputsExt, &protos.TxInputExt{Bucket: string(vrt.Bytes("extra", 1))})
+		u.TxInputsExt = append(u.TxInputsExt, &protos.TxInputExt{Bucket: string(verifBytes("extra", 1, version < 3))})
 	case 12:
-		u.TxOutputsExt = append(u.TxOutputsExt, &protos.TxOutputExt{Bucket: string(vrt.Bytes("extra", 1))})
+		u.TxOutputsExt = append(u.TxOutputsExt, &protos.TxOutputExt{Bucket: string(verifBytes("extra", 1, version < 3))})
 	case 13:
-		u.AuthRequire = append(u.AuthRequire, string(vrt.Bytes("extra", 1)))
+		u.AuthRequire = append(u.AuthRequire, string(verifBytes("extra", 1, version < 3)))
 	case 14: // another argument
-		u.ContractRequests[0].Args["z"] = vrt.Bytes("extra", 1)
+		u.ContractRequests[0].Args["z"] = verifBytes("extra", 1, version < 3)
 	case 15:
-		u.ContractRequests = append(u.ContractRequests, &protos.InvokeRequest{ModuleName: string(vrt.Bytes("extra", 1))})
+		u.ContractRequests = append(u.ContractRequests, &protos.InvokeRequest{ModuleName: string(verifBytes("extra", 1, version < 3))})
 	}
 	var dt, du []byte
 	if includeSigns {
@@ -184,4 +205,7 @@ func VerifC07IdV3()          { verifC07Adjacent(3, true, 2) }
 func VerifC07DigestV3()      { verifC07Adjacent(3, false, 2) }
 func VerifC07ScalarsV3()     { verifC07Scalars(3, true) }
 func VerifC07ScalarsSignV3() { verifC07Scalars(3, false) }
-func VerifC07DigestV1()      { verifC07Adjacent(1, false, 1) }
+func VerifC07ScalarsV2()     { verifC07Scalars(2, true) }
+func VerifC07ScalarsSignV2() { verifC07Scalars(2, false) }
+func VerifC07DigestV2()      { verifC07Adjacent(2, false, 1) }
+func VerifC07IdV2()          { verifC07Adjacent(2, true, 1) }
